@@ -122,6 +122,10 @@ fn clone_call(t: &Tm, method: &str) -> Option<(String, Vec<Tm>)> {
 
 pub fn c07(cx: &Cx) -> i32 {
     let mut rep = cx.report("C07");
+    // the derived impl of a generic type stands on the default bounds: which field types get one, and that they reach the impl
+    crate::misc::mentions_param_rule(cx, &mut rep);
+    crate::misc::wcb_rule(cx, &mut rep);
+    ctor_kind_rule(cx, &mut rep, &["Clone"]);
     crate::misc::span_hygiene_rule(cx, &mut rep);
     // ---- struct
     if let Some(r) = role(cx, "struct", "Clone") {
@@ -267,6 +271,10 @@ fn type_is_ref(t: &syn::Type) -> bool { matches!(t, syn::Type::Reference(_)) }
 
 pub fn c08(cx: &Cx) -> i32 {
     let mut rep = cx.report("C08");
+    // the derived impl of a generic type stands on the default bounds: which field types get one, and that they reach the impl
+    crate::misc::mentions_param_rule(cx, &mut rep);
+    crate::misc::wcb_rule(cx, &mut rep);
+    ctor_kind_rule(cx, &mut rep, &["BinaryOp", "UnaryOp"]);
     crate::misc::span_hygiene_rule(cx, &mut rep);
     crate::misc::expand_self_rule(cx, &mut rep);
     let mut checked_ops = 0;
@@ -426,6 +434,9 @@ fn check_debug_chain(rep: &mut Report, inst: &Instance, label: &str, site: &str,
 
 pub fn c10(cx: &Cx) -> i32 {
     let mut rep = cx.report("C10");
+    // the derived impl of a generic type stands on the default bounds: which field types get one, and that they reach the impl
+    crate::misc::mentions_param_rule(cx, &mut rep);
+    crate::misc::wcb_rule(cx, &mut rep);
     crate::misc::span_hygiene_rule(cx, &mut rep);
     crate::misc::helper_name_rule(cx, &mut rep, "HelperAttributeForDebug", "debug");
     for kind in ["struct", "enum"] {
@@ -544,6 +555,61 @@ pub fn consulted_rule(cx: &Cx, rep: &mut Report, which: &[&str]) {
     }
 }
 
+/// TP-ctor-kind: a type / variant without fields is still a record `X {}`, a tuple `X()` or a unit `X`; the value the
+/// generated code constructs must be written in the item's own style, so the builder has to ask which one it is
+pub fn ctor_kind_rule(cx: &Cx, rep: &mut Report, variants: &[&str]) {
+    use syn::visit::Visit;
+    struct Ctors { braces: usize, parens: usize, bare: usize }
+    fn is_ctor(p: &syn::Path) -> bool {
+        let segs: Vec<String> = p.segments.iter().map(|s| s.ident.to_string()).collect();
+        (segs.len() == 2 && segs[0] == "Self") || segs.last().map(|l| l.starts_with("__s_item_ident") || l.contains("variant_ident")).unwrap_or(false)
+    }
+    impl<'ast> Visit<'ast> for Ctors {
+        fn visit_expr(&mut self, e: &'ast syn::Expr) {
+            match e {
+                syn::Expr::Struct(x) if is_ctor(&x.path) => { self.braces += 1; }
+                syn::Expr::Call(c) => { if let syn::Expr::Path(p) = &*c.func { if is_ctor(&p.path) && p.qself.is_none() { self.parens += 1; for a in &c.args { self.visit_expr(a); } return; } } }
+                syn::Expr::Path(p) if p.qself.is_none() && is_ctor(&p.path) => { self.bare += 1; }
+                _ => {}
+            }
+            syn::visit::visit_expr(self, e);
+        }
+    }
+    let mut judged = 0;
+    for kind in ["struct", "enum"] {
+        for variant in variants {
+            let Some(r) = role(cx, kind, variant) else { continue };
+            // variants of an enum: only where the builder walks all of them with their fields summarised (Clone)
+            if kind == "enum" && *variant != "Clone" { continue; }
+            let mode = if kind == "struct" { CollMode::Unrolled(0) } else { CollMode::InnerUnrolled(0) };
+            for pl in payloads(&cx.ix, r).into_iter().take(1) {
+                let rr = run(&cx.ix, r, pl.as_deref(), mode, &[]);
+                rep.unanalysable(&rr.label(), &rr.unsupported);
+                let mut cache = InstCache::default();
+                let mut seen = std::collections::HashSet::new();
+                for p in &rr.paths {
+                    let Outcome::Ok(v) = &p.outcome else { continue };
+                    // a type-level value replaces the constructor
+                    if p.cond.get("hattrs.default.?.value") == Some(&true) { continue; }
+                    let inst = cache.get_sized(v, 0, &empties(&p.cond), &sizes(&p.cond));
+                    let Ok(inst) = &*inst else { continue };
+                    if !seen.insert(inst.text.clone()) { continue; }
+                    let named = p.cond.iter().find(|(a, _)| a.ends_with("fields is Named")).map(|(_, b)| *b);
+                    let unnamed = p.cond.iter().find(|(a, _)| a.ends_with("fields is Unnamed")).map(|(_, b)| *b);
+                    let mut c = Ctors { braces: 0, parens: 0, bare: 0 };
+                    for im in find_impls(&inst.file) { for it in &im.items { if let syn::ImplItem::Fn(m) = it { if !matches!(m.sig.ident.to_string().as_str(), "clone_from" | "fmt") { c.visit_block(&m.block); } } } }
+                    if c.braces + c.parens + c.bare == 0 { continue; }
+                    judged += 1;
+                    let want = match (named, unnamed) { (Some(true), _) => Some("braces"), (_, Some(true)) => Some("parens"), (Some(false), Some(false)) => Some("bare"), _ => None };
+                    let ok = match want { Some("braces") => c.parens == 0 && c.bare == 0, Some("parens") => c.braces == 0 && c.bare == 0, Some("bare") => c.braces == 0 && c.parens == 0, _ => false };
+                    rep.check(ok, "TP-ctor-kind", &rr.label(), &format!("zero-fields:{}", want.unwrap_or("kind-not-consulted")), &format!("a {kind} {} without fields is constructed as {} `X {{}}`, {} `X()`, {} `X` although {}: `X {{}}` / `X()` / `X` are different items and only the item's own style compiles", if kind == "enum" { "variant" } else { "type" }, c.braces, c.parens, c.bare, match want { Some("braces") => "it is a record (named fields)", Some("parens") => "it is a tuple", Some("bare") => "it is a unit", _ => "the builder never asks whether it is a record, a tuple or a unit" }), &rr.site(), json!({"path": cond_str(&p.cond)}));
+                }
+            }
+        }
+    }
+    rep.floor("field-less constructors judged", judged, 3);
+}
+
 // =============================================================================================== C18
 pub fn c18(cx: &Cx) -> i32 {
     let mut rep = cx.report("C18");
@@ -655,6 +721,10 @@ fn check_default_fields(rep: &mut Report, inst: &Instance, label: &str, site: &s
 
 pub fn c11(cx: &Cx) -> i32 {
     let mut rep = cx.report("C11");
+    // the derived impl of a generic type stands on the default bounds: which field types get one, and that they reach the impl
+    crate::misc::mentions_param_rule(cx, &mut rep);
+    crate::misc::wcb_rule(cx, &mut rep);
+    ctor_kind_rule(cx, &mut rep, &["Default"]);
     crate::misc::span_hygiene_rule(cx, &mut rep);
     consulted_rule(cx, &mut rep, &["Default"]);
     crate::misc::helper_name_rule(cx, &mut rep, "HelperAttributeForDefault", "default");
@@ -872,8 +942,12 @@ pub fn c09(cx: &Cx) -> i32 {
                 let hdr_r = tp.find('<').map(|i| tp[i + 1..].starts_with('&')).unwrap_or(false);
                 let hdr_l = type_is_ref(&im.self_ty);
                 // for forms that keep the user's own types (rhs_orig / this_orig) the reference-ness is inside the leaf
-                let l_ok = w.this_orig || hdr_l == w.l;
-                let r_ok = w.rhs_orig || hdr_r == w.r;
+                let self_leaf = inst.leaves.get(ty_text(&im.self_ty).trim_start_matches('&')).map(|l| l.path.clone());
+                let l_ok = if w.this_orig { self_leaf.as_ref().map(|p| !p.ends_with(".0")).unwrap_or(false) } else { hdr_l == w.l };
+                // the Rhs written in the header: the user's own Rhs (what `to_rhs` gave) when the form keeps it, else its element
+                let rhs_leaf = tp.find('<').map(|i| tp[i + 1..].trim_end_matches('>').trim_start_matches('&').to_string()).and_then(|a| inst.leaves.get(&a).map(|l| l.path.clone()));
+                if std::env::var("GENLINT_DEBUG_WCB").is_ok() { eprintln!("C09 hdr {tp} rhs_leaf={rhs_leaf:?} want={w:?}"); }
+                let r_ok = if w.rhs_orig { rhs_leaf.as_ref().map(|p| !p.ends_with(".0")).unwrap_or(false) } else { hdr_r == w.r };
                 let self_ok = this_elem(&ty_text(&im.self_ty));
                 // generics and where-clause are the user's, Self-expanded
                 let g_ok = quote::ToTokens::to_token_stream(&im.generics).to_string().contains("__G_x_") && im.generics.where_clause.as_ref().map(|w| quote::ToTokens::to_token_stream(w).to_string().contains("__G_x_")).unwrap_or(false);
